@@ -245,8 +245,8 @@ def _mldsa_pubkey_parsing(subject_public_key_info):
     :param subject_public_key_info: bytes like object with the DER encoded
         public key in it
     """
-    from dilithium_py.ml_dsa.pkcs import pk_from_der
     try:
+        from dilithium_py.ml_dsa.pkcs import pk_from_der
         # dilithium py can do parsing of SPKI on its own so use it
         public_key = pk_from_der(subject_public_key_info)
     except Exception:
